@@ -2,6 +2,7 @@ package mon
 
 import (
 	"fmt"
+	"github.com/openconfig/goyang/pkg/yang"
 	"math/rand"
 	"reflect"
 	"strings"
@@ -132,6 +133,45 @@ func findListSitesOpt(cfg *lib.Cfg, seed int64, kind lib.Kind, domain int, hosti
 					}
 					ids[kt.id] = true
 					s.tuples = append(s.tuples, kt)
+				}
+				if hostileKeys {
+					// colon twins: next to a tuple with string key K put the tuple "x:K"
+					// (a value that only looks like a module-qualified K)
+					var out2 []keyTuple
+					for ti, t := range s.tuples {
+						out2 = append(out2, t)
+						if ti%4 != 0 {
+							continue
+						}
+						for pi, kf := range kfs {
+							plain := kf.YType != nil && kf.YType.Kind == yang.Ystring && len(kf.YType.Pattern) == 0 && len(kf.YType.POSIXPattern) == 0 && len(kf.YType.Length) == 0
+							if t.params[pi].Kind() != reflect.String || !(plain || kf.LeafrefPath != "") {
+								continue
+							}
+							ent := s.newElem(t)
+							fv := ent.Elem().Field(kf.Idx)
+							if fv.Kind() != reflect.Ptr || fv.Elem().Kind() != reflect.String {
+								break
+							}
+							fv.Elem().SetString("x:" + t.params[pi].String())
+							var params []reflect.Value
+							for _, kf2 := range kfs {
+								v := ent.Elem().Field(kf2.Idx)
+								if v.Kind() == reflect.Ptr {
+									v = v.Elem()
+								}
+								params = append(params, v)
+							}
+							kt := keyTuple{params: params, keys: cfg.EntryKeys(ent)}
+							kt.id = lib.PathElem{Name: "e", Keys: kt.keys, Pos: -1}.String()
+							if !ids[kt.id] {
+								ids[kt.id] = true
+								out2 = append(out2, kt)
+							}
+							break
+						}
+					}
+					s.tuples = out2
 				}
 				if len(s.tuples) < 2 {
 					continue
